@@ -595,7 +595,12 @@ impl CompositeValidator {
         }
 
         // Reject messages that are too old
-        if now_ms > msg.envelope.timestamp_ms + self.config.max_message_age_ms {
+        // Saturating: a very large `max_message_age_ms` ("never too old") must not overflow.
+        if now_ms > msg
+            .envelope
+            .timestamp_ms
+            .saturating_add(self.config.max_message_age_ms)
+        {
             return Err(ChainError::CryptoError(format!(
                 "message too old: {} ms",
                 now_ms - msg.envelope.timestamp_ms
